@@ -357,7 +357,7 @@ func c38Twins(c *core.Ctx, b core.Batch) {
 			if k%2 == 1 {
 				src = p.b
 			}
-			in := gen.ValidWire(r, src, gen.MsgOpts{Unknown: true, AnyUTF8: true, NoRequired: k%3 == 0}, k, func(string) {})
+			in := gen.ValidWire(r, src, gen.MsgOpts{Unknown: true, AnyUTF8: true, NoRequired: k%3 == 0}, k%6, func(string) {})
 			switch k % 4 {
 			case 1:
 				in = gen.Mutate(r, in, func(string) {})
